@@ -25,6 +25,7 @@ import (
 // Sink receives the value of an expression; the parameter type checks its kind (reflect.Call panics otherwise).
 type Sink struct {
 	Strs map[int64]string // receivers of string built-ins reached through a variable path
+	T    map[int64]map[int64]int
 	Zero int64
 	I    map[int64]int64
 	R    map[int64]float64
@@ -33,12 +34,21 @@ type Sink struct {
 }
 
 func newSink() *Sink {
-	return &Sink{Strs: sinkStrs, I: map[int64]int64{}, R: map[int64]float64{}, B: map[int64]bool{}, S: map[int64]string{}}
+	return &Sink{Strs: sinkStrs, T: map[int64]map[int64]int{}, I: map[int64]int64{}, R: map[int64]float64{}, B: map[int64]bool{}, S: map[int64]string{}}
 }
 func (s *Sink) PutI(k, v int64)         { s.I[k] = v }
 func (s *Sink) PutR(k int64, v float64) { s.R[k] = v }
 func (s *Sink) PutB(k int64, v bool)    { s.B[k] = v }
 func (s *Sink) PutS(k int64, v string)  { s.S[k] = v }
+
+// Touch records that it was evaluated (for key k, operand id) and yields true: makes short circuit observable.
+func (s *Sink) Touch(k, id int64) bool {
+	if s.T[k] == nil {
+		s.T[k] = map[int64]int{}
+	}
+	s.T[k][id]++
+	return true
+}
 
 // fact methods whose result depends on the order of their arguments (fixed, variadic, mixed kinds)
 func (s *Sink) Sub2(a, b int64) int64 { return a - b }
@@ -76,10 +86,11 @@ type tval struct {
 
 type enode struct {
 	// leaf
-	T string      `json:"t"`
-	N int64       `json:"n"`
-	V interface{} `json:"v"`
-	S string      `json:"s"`
+	T  string      `json:"t"`
+	ID int64       `json:"id"`
+	N  int64       `json:"n"`
+	V  interface{} `json:"v"`
+	S  string      `json:"s"`
 	// inner
 	K  string `json:"k"`
 	Op string `json:"op"`
@@ -100,18 +111,26 @@ type litRec struct {
 	} `json:"exp"`
 }
 
+type strPiece struct {
+	K string `json:"k"`
+	C int    `json:"c"`
+}
+
 type exprCase struct {
-	Fn       string   `json:"fn"`
-	Recv     []int    `json:"recv"`
-	Args     []tval   `json:"args"`
-	Fam      string   `json:"fam"`
-	Toks     []*enode `json:"toks"`
-	Tree     *enode   `json:"tree"`
-	Want     tval     `json:"want"`
-	ImplWant *tval    `json:"implWant"`
-	Amp      bool     `json:"amp"`
-	Typ      string   `json:"typ"`
-	Lit      *litRec  `json:"lit"`
+	Touched  []int64    `json:"touched"`
+	Style    string     `json:"style"`
+	Pieces   []strPiece `json:"pieces"`
+	Fn       string     `json:"fn"`
+	Recv     []int      `json:"recv"`
+	Args     []tval     `json:"args"`
+	Fam      string     `json:"fam"`
+	Toks     []*enode   `json:"toks"`
+	Tree     *enode     `json:"tree"`
+	Want     tval       `json:"want"`
+	ImplWant *tval      `json:"implWant"`
+	Amp      bool       `json:"amp"`
+	Typ      string     `json:"typ"`
+	Lit      *litRec    `json:"lit"`
 }
 
 var opSym = map[string]string{"mul": "*", "div": "/", "mod": "%", "add": "+", "sub": "-", "band": "&", "bor": "|",
@@ -132,8 +151,41 @@ func leafText(n *enode, style int) string {
 		return "'" + n.S + "'"
 	case "fail":
 		return "(1 % S.Zero)"
+	case "touch":
+		return fmt.Sprintf("S.Touch(%d, %d)", curKey, n.ID)
 	}
 	panic("leaf kind " + n.T)
+}
+
+// key of the job being printed (operands that record their evaluation carry it)
+var curKey int64
+
+func strLitText(c *exprCase) string {
+	q := map[string]string{"dq": `"`, "sq": "'"}[c.Style]
+	var b strings.Builder
+	b.WriteString(q)
+	for _, p := range c.Pieces {
+		switch p.K {
+		case "lit":
+			b.WriteByte(byte(p.C))
+		case "n":
+			b.WriteString(`\n`)
+		case "t":
+			b.WriteString(`\t`)
+		case "bs":
+			b.WriteString(`\\`)
+		case "q":
+			b.WriteString(`\` + q)
+		case "hex":
+			fmt.Fprintf(&b, `\x%02x`, p.C)
+		case "oct":
+			fmt.Fprintf(&b, `\%03o`, p.C)
+		case "u":
+			fmt.Fprintf(&b, `\u%04x`, p.C)
+		}
+	}
+	b.WriteString(q)
+	return b.String()
 }
 
 // full prints the tree fully parenthesised.
@@ -449,8 +501,24 @@ func cmdExprReplay(args []string) {
 						wantS = cpString(j.want.Cp)
 					}
 					got, ok = v, has && v == wantS
+				case "bytes":
+					v, has := s.S[j.key]
+					got, ok = fmt.Sprintf("% x", v), has && v == cpString(j.want.Cp)
 				case "err":
 					got, ok = "a value", false
+				}
+				if ok && j.c.Fam == "touch" {
+					// exactly the operands the short-circuit rules reach were evaluated, each once
+					seen := s.T[j.key]
+					want := map[int64]bool{}
+					for _, id := range j.c.Touched {
+						want[id] = true
+					}
+					for id := int64(1); id <= 2; id++ {
+						if (seen[id] > 0) != want[id] || seen[id] > 1 {
+							ok, got = false, fmt.Sprintf("operands evaluated: %v, expected %v", seen, j.c.Touched)
+						}
+					}
 				}
 			}
 			if !ok {
@@ -496,6 +564,12 @@ func cmdExprReplay(args []string) {
 				put = "PutI"
 			}
 			add("literal", litText(c.Lit, n))
+		case "touch":
+			curKey = key + 1
+			add("touch", full(c.Tree, style))
+		case "strlit":
+			put = "PutS"
+			add("strlit", strLitText(c))
 		case "builtin":
 			text := builtinText(c, key+1, n)
 			if c.Want.T == "i" {
